@@ -19,6 +19,11 @@ TOKENS = {
     'b2': b'\xff',
     'db1': {'k': b'\x01\x02'},
     'None': None,
+    # falsy-but-meaningful values and a string full of header metacharacters
+    'es': '',
+    'el': [],
+    'ed': {},
+    'h1': '3f2c-11aa,/b?c"d\\e-9',
 }
 
 BINARY_TOKENS = {'b1', 'b2', 'db1'}
